@@ -1510,6 +1510,8 @@ class Interp:
             return ("ctor", None, name)
         if (ty, name) in BUILTIN_FNS:
             return ("builtin", ty, name)
+        if (ty, name) in getattr(self, "ext_values", {}):
+            return self.ext_values[(ty, name)]
         if (ty, name) in getattr(self, "externs", {}):
             return ("extern", self.externs[(ty, name)])
         raise SiteError(f"`{ty}::{name}` is not an enum variant, associated constant or function of {self.mod.rel}, "
@@ -2701,6 +2703,118 @@ def site_leaf_number(mods):
             out.append(([k] + w, o))
     return out, fn.line, f"fn NumberBuf::parse_in, executed on {len(NUMBER_WORDS)} inputs x {len(pmod.enums['Context'])} contexts against the Parser stub"
 
+
+# ----------------------------------------------------------------------------- the object functions, executed
+def _err_outcome(x, fn):
+    """the list of numbers of an Err(..) value of the parsers (shared encoding)"""
+    if x[0] != "variant":
+        raise SiteError(f"`{fn.where()}` fails with {show_val(x)}", fn.line)
+    a = x[3]
+
+    def span(sp):
+        if not (sp[0] == "variant" and sp[2] == "Span"):
+            raise SiteError(f"expected a Span, got {show_val(sp)}", fn.line)
+        return [sp[3][0][1], sp[3][1][1]]
+    if x[2] == "Stream":
+        return [5, a[0][1]]
+    if x[2] == "Unexpected":
+        c = a[1]
+        return [1, a[0][1], 0 if c[2] == "None" else c[3][0][1] + 1]
+    if x[2] == "MissingLowSurrogate":
+        return [6] + span(a[0]) + [a[1][1]]
+    if x[2] == "InvalidUnicodeCodePoint":
+        return [7] + span(a[0]) + [a[1][1]]
+    if x[2] == "InvalidLowSurrogate":
+        return [8] + span(a[0]) + [a[1][1], a[2][1]]
+    raise SiteError(f"`{fn.where()}` fails with {show_val(x)}", fn.line)
+
+
+def _string_externs():
+    mk = lambda name: (lambda args, ln: ("variant", "Error", name, list(args)))
+    return {
+        ("Error", "unexpected"): lambda args, ln: ("variant", "Error", "Unexpected", list(args)),
+        ("Error", "MissingLowSurrogate"): mk("MissingLowSurrogate"),
+        ("Error", "InvalidUnicodeCodePoint"): mk("InvalidUnicodeCodePoint"),
+        ("Error", "InvalidLowSurrogate"): mk("InvalidLowSurrogate"),
+        (None, "Meta"): lambda args, ln: ("variant", "Meta", "Meta", list(args)),
+        ("Span", "new"): _span,
+        ("SmallString", "new"): lambda args, ln: ("strbuf", []),
+    }
+
+
+def _object_words():
+    toks = [_o("{"), _o("}"), _o(","), _o(":"), _o(" "), _o("\"a\""), _o("\"\""), _o("\"\\ud83d\""), _o("x"), _o("\n"), [STREAM_ERR]]
+    words = [[]]
+    level = [[]]
+    for _ in range(3):
+        level = [w + t for w in level for t in toks]
+        words += level
+    for t in ("{ \"a\" : ", "{\"a\"  :1", ", \"b\":", " , \"k\" x", "{\"a\":}", "{ \t\r\n}", " \t\r\n}", " \t\r\n, \t\r\n\"k\\n\" \t:",
+              "{\"\\ud83d\\ude00\":", ",\"\\ude00\":", "{\"a\\", ",\"a", "{\"a\":\"b\"", "}x", ",,"):
+        words.append(_o(t))
+    seen, out = set(), []
+    for w in words:
+        if tuple(w) not in seen:
+            seen.add(tuple(w))
+            out.append(w)
+    return out
+
+
+OBJECT_WORDS = _object_words()
+
+
+def site_leaf_object(which):
+    def f(mods):
+        mod = mods("src/parse/object.rs")
+        smod = mods("src/parse/string.rs")
+        sfn = parse_in_fn(smod)
+        fn = _impl_parse_in(mod, "StartFragment" if which == "start" else "ContinueFragment")
+
+        def key_parse_in(args, ln):
+            # `Key::parse_in(parser, context)`: Key is SmallString<[u8; KEY_CAPACITY]> -- the string scanner of string.rs, run
+            # on the same stub
+            it2 = Interp(smod)
+            it2.externs = _string_externs()
+            return it2.call(sfn, list(args), "SmallString")
+        out = []
+        for o in (0, 3):
+            for w in OBJECT_WORDS:
+                it = Interp(mod)
+                it.externs = dict(_string_externs())
+                it.externs[("Key", "parse_in")] = key_parse_in
+                it.ext_values = {("Context", "ObjectKey"): ("variant", "Context", "ObjectKey", [])}
+                stub = parser_stub(w)
+                stub[1]["trunc"], stub[1]["inval"] = bool(o & 1), bool(o & 2)
+                extra = [("variant", "Context", "None", [])] if which == "start" else [("int", 0, "usize")]
+                try:
+                    v = it.call(fn, [stub] + extra, "StartFragment" if which == "start" else "ContinueFragment")
+                except EvalPanic as e:
+                    raise SiteError(f"`{fn.where()}` panics on the input {[hex(c) for c in w]}: {e}", fn.line)
+                if v[0] != "variant" or v[2] not in ("Ok", "Err"):
+                    raise SiteError(f"`{fn.where()}` yields {show_val(v)}, expected a Result", fn.line)
+                x = v[3][0]
+                if v[2] == "Err":
+                    out.append(([o] + w, _err_outcome(x, fn)))
+                    continue
+                idx = 0
+                if which == "start":
+                    if not (x[0] == "variant" and x[2] == "Meta" and x[3][1][0] == "int"):
+                        raise SiteError(f"`{fn.where()}` returns {show_val(x)}, expected Meta(fragment, index)", fn.line)
+                    idx, x = x[3][1][1], x[3][0]
+                if x[0] != "variant":
+                    raise SiteError(f"`{fn.where()}` returns {show_val(x)}", fn.line)
+                if x[2] in ("Empty", "End") and not x[3]:
+                    body = [1, idx, stub[1]["pos"], 0, 0]
+                elif x[2] in ("NonEmpty", "Entry") and len(x[3]) == 1 and x[3][0][0] == "variant" and x[3][0][2] == "Meta" \
+                        and x[3][0][3][0][0] == "strbuf" and x[3][0][3][1][0] == "int":
+                    key, e = x[3][0][3][0][1], x[3][0][3][1][1]
+                    body = [0, idx, stub[1]["pos"], e, len(key)] + list(key)
+                else:
+                    raise SiteError(f"`{fn.where()}` returns {show_val(x)}", fn.line)
+                out.append(([o] + w, [0] + body + [n for e_ in stub[1]["cm"] for n in e_]))
+        return out, fn.line, f"fn {fn.where()} (object.rs), executed on {len(OBJECT_WORDS)} inputs x 2 option records against the Parser stub, keys through SmallString::parse_in"
+    return f
+
 def cval_of(v, line):
     k = v[0]
     if k == "int":
@@ -2997,6 +3111,13 @@ def _sites():
                          + " ".join(str(n) for n in o) for w, o in v],
         thm="C01_number_parser_from_source",
         model="the outcome of Parser.parse_number in the same context on the same inputs")
+    for _w in ("start", "continue"):
+        add(id=f"leaf_object_{_w}", file="src/parse/object.rs", props=["C01", "C02", "C05", "C07"], ev=site_leaf_object(_w),
+            ty="list (list N * list N)", coq=lambda v: c_list([f"({c_cps(w)}, {c_cps(o)})" for w, o in v], ";\n   "),
+            items=lambda v: [f"options {w[0]}: " + " ".join("<fails>" if c == STREAM_ERR else u(c) for c in w[1:]) + " -> "
+                             + " ".join(str(n) for n in o) for w, o in v],
+            thm="C05_object_functions_from_source",
+            model="the outcome of Parser.object_start / object_continue under the same option record on the same inputs")
     add(id="is_control", file="src/parse/string.rs", props=parse_props, ev=site_is_control,
         ty="list (N * N)", coq=c_set, items=s_set, thm="C01_control_from_source",
         model="set_of Parser.is_control char_domain")
